@@ -1067,3 +1067,847 @@ pub fn replay_wire(prop: &str, case: &Value) -> (bool, String) {
         _ => (true, format!("log={:?}", log)),
     }
 }
+
+// ------------------------------------------------------------------------------------------------
+// C03
+
+use crate::scriptfs::{DirAns, Fail};
+use fuse_backend_rs::abi::fuse_abi::stat64;
+use fuse_backend_rs::api::filesystem::Entry;
+use std::time::Duration;
+
+/// One dimension of a scripted result.
+struct RDim {
+    name: &'static str,
+    alts: Vec<u64>,
+    set: fn(&mut Answer, u64),
+}
+
+fn dom_res64() -> Vec<u64> {
+    vec![0, 1, (1 << 31) - 1, 1 << 31, (1 << 32) - 1, 1 << 32, (1 << 63) - 1, 1 << 63, u64::MAX]
+}
+fn dom_res32() -> Vec<u64> {
+    vec![0, 1, (1 << 31) - 1, 1 << 31, u32::MAX as u64]
+}
+fn dom_nanos() -> Vec<u64> {
+    vec![0, 1, 999_999_999]
+}
+
+macro_rules! rdim {
+    ($name:expr, $alts:expr, |$a:ident, $v:ident| $body:expr) => {
+        RDim { name: $name, alts: $alts, set: |$a: &mut Answer, $v: u64| $body }
+    };
+}
+
+fn stat_dims_entry() -> Vec<RDim> {
+    vec![
+        rdim!("entry.inode", dom_res64(), |a, v| a.entry.inode = v),
+        rdim!("entry.generation", dom_res64(), |a, v| a.entry.generation = v),
+        rdim!("entry.attr_flags", dom_res32(), |a, v| a.entry.attr_flags = v as u32),
+        rdim!("entry.attr_timeout.secs", dom_res64(), |a, v| a.entry.attr_timeout = Duration::new(v, a.entry.attr_timeout.subsec_nanos())),
+        rdim!("entry.attr_timeout.nanos", dom_nanos(), |a, v| a.entry.attr_timeout = Duration::new(a.entry.attr_timeout.as_secs(), v as u32)),
+        rdim!("entry.entry_timeout.secs", dom_res64(), |a, v| a.entry.entry_timeout = Duration::new(v, a.entry.entry_timeout.subsec_nanos())),
+        rdim!("entry.entry_timeout.nanos", dom_nanos(), |a, v| a.entry.entry_timeout = Duration::new(a.entry.entry_timeout.as_secs(), v as u32)),
+        rdim!("entry.st_ino", dom_res64(), |a, v| a.entry.attr.st_ino = v),
+        rdim!("entry.st_size", dom_res64(), |a, v| a.entry.attr.st_size = v as i64),
+        rdim!("entry.st_blocks", dom_res64(), |a, v| a.entry.attr.st_blocks = v as i64),
+        rdim!("entry.st_atime", dom_res64(), |a, v| a.entry.attr.st_atime = v as i64),
+        rdim!("entry.st_mtime", dom_res64(), |a, v| a.entry.attr.st_mtime = v as i64),
+        rdim!("entry.st_ctime", dom_res64(), |a, v| a.entry.attr.st_ctime = v as i64),
+        rdim!("entry.st_atime_nsec", dom_nanos(), |a, v| a.entry.attr.st_atime_nsec = v as i64),
+        rdim!("entry.st_mtime_nsec", dom_nanos(), |a, v| a.entry.attr.st_mtime_nsec = v as i64),
+        rdim!("entry.st_ctime_nsec", dom_nanos(), |a, v| a.entry.attr.st_ctime_nsec = v as i64),
+        rdim!("entry.st_mode", dom_res32(), |a, v| a.entry.attr.st_mode = v as u32),
+        rdim!("entry.st_nlink", dom_res32(), |a, v| a.entry.attr.st_nlink = v),
+        rdim!("entry.st_uid", dom_res32(), |a, v| a.entry.attr.st_uid = v as u32),
+        rdim!("entry.st_gid", dom_res32(), |a, v| a.entry.attr.st_gid = v as u32),
+        rdim!("entry.st_rdev", dom_res32(), |a, v| a.entry.attr.st_rdev = v),
+        rdim!("entry.st_blksize", dom_res32(), |a, v| a.entry.attr.st_blksize = v as i64),
+    ]
+}
+
+fn stat_dims_attr() -> Vec<RDim> {
+    vec![
+        rdim!("timeout.secs", dom_res64(), |a, v| a.timeout = Duration::new(v, a.timeout.subsec_nanos())),
+        rdim!("timeout.nanos", dom_nanos(), |a, v| a.timeout = Duration::new(a.timeout.as_secs(), v as u32)),
+        rdim!("st_ino", dom_res64(), |a, v| a.attr.st_ino = v),
+        rdim!("st_size", dom_res64(), |a, v| a.attr.st_size = v as i64),
+        rdim!("st_blocks", dom_res64(), |a, v| a.attr.st_blocks = v as i64),
+        rdim!("st_atime", dom_res64(), |a, v| a.attr.st_atime = v as i64),
+        rdim!("st_mtime", dom_res64(), |a, v| a.attr.st_mtime = v as i64),
+        rdim!("st_ctime", dom_res64(), |a, v| a.attr.st_ctime = v as i64),
+        rdim!("st_atime_nsec", dom_nanos(), |a, v| a.attr.st_atime_nsec = v as i64),
+        rdim!("st_mtime_nsec", dom_nanos(), |a, v| a.attr.st_mtime_nsec = v as i64),
+        rdim!("st_ctime_nsec", dom_nanos(), |a, v| a.attr.st_ctime_nsec = v as i64),
+        rdim!("st_mode", dom_res32(), |a, v| a.attr.st_mode = v as u32),
+        rdim!("st_nlink", dom_res32(), |a, v| a.attr.st_nlink = v),
+        rdim!("st_uid", dom_res32(), |a, v| a.attr.st_uid = v as u32),
+        rdim!("st_gid", dom_res32(), |a, v| a.attr.st_gid = v as u32),
+        rdim!("st_rdev", dom_res32(), |a, v| a.attr.st_rdev = v),
+        rdim!("st_blksize", dom_res32(), |a, v| a.attr.st_blksize = v as i64),
+    ]
+}
+
+fn open_dims() -> Vec<RDim> {
+    vec![
+        rdim!("handle", vec![u64::MAX - 1, 0, 1, 1 << 32, u64::MAX], |a, v| a.handle = if v == u64::MAX - 1 { None } else { Some(v) }),
+        rdim!("opts", vec![0, 1, 2, 4, 8, 16, 31, 32, u32::MAX as u64], |a, v| a.opts = v as u32),
+        rdim!("passthrough", vec![u64::MAX, 0, 1, u32::MAX as u64], |a, v| a.passthrough = if v == u64::MAX { None } else { Some(v as u32) }),
+    ]
+}
+
+fn statvfs_dims() -> Vec<RDim> {
+    vec![
+        rdim!("f_blocks", dom_res64(), |a, v| a.statvfs.f_blocks = v),
+        rdim!("f_bfree", dom_res64(), |a, v| a.statvfs.f_bfree = v),
+        rdim!("f_bavail", dom_res64(), |a, v| a.statvfs.f_bavail = v),
+        rdim!("f_files", dom_res64(), |a, v| a.statvfs.f_files = v),
+        rdim!("f_ffree", dom_res64(), |a, v| a.statvfs.f_ffree = v),
+        rdim!("f_bsize", dom_res32(), |a, v| a.statvfs.f_bsize = v),
+        rdim!("f_namemax", dom_res32(), |a, v| a.statvfs.f_namemax = v),
+        rdim!("f_frsize", dom_res32(), |a, v| a.statvfs.f_frsize = v),
+        rdim!("f_favail", dom_res64(), |a, v| a.statvfs.f_favail = v),
+        rdim!("f_fsid", dom_res64(), |a, v| a.statvfs.f_fsid = v),
+        rdim!("f_flag", dom_res64(), |a, v| a.statvfs.f_flag = v),
+    ]
+}
+
+fn base_answer() -> Answer {
+    let mut a = Answer::default();
+    let mut i = 1u64;
+    let mut m64 = || {
+        i += 1;
+        0x0101_0101_0101_0101u64.wrapping_mul(i) & 0x7fff_ffff_ffff_ffff
+    };
+    a.entry.inode = m64();
+    a.entry.generation = m64();
+    a.entry.attr_flags = m64() as u32;
+    a.entry.attr_timeout = Duration::new(m64(), 123_456_789);
+    a.entry.entry_timeout = Duration::new(m64(), 987_654_321);
+    for st in [&mut a.entry.attr, &mut a.attr] {
+        st.st_ino = m64();
+        st.st_size = m64() as i64;
+        st.st_blocks = m64() as i64;
+        st.st_atime = m64() as i64;
+        st.st_mtime = m64() as i64;
+        st.st_ctime = m64() as i64;
+        st.st_atime_nsec = (m64() % 1_000_000_000) as i64;
+        st.st_mtime_nsec = (m64() % 1_000_000_000) as i64;
+        st.st_ctime_nsec = (m64() % 1_000_000_000) as i64;
+        st.st_mode = m64() as u32;
+        st.st_nlink = m64() & 0xffff_ffff;
+        st.st_uid = m64() as u32;
+        st.st_gid = m64() as u32;
+        st.st_rdev = m64() & 0xffff_ffff;
+        st.st_blksize = (m64() & 0x7fff_ffff) as i64;
+    }
+    a.timeout = Duration::new(m64(), 111_222_333);
+    a.handle = Some(m64());
+    a.opts = 5;
+    a.passthrough = Some(0x3131_3131);
+    a.data = b"scripted-result-data".to_vec();
+    a.count = 0x5151_5151;
+    a.lock = (m64(), m64(), 0x6161_6161, 0x7171_7171);
+    a.statvfs.f_blocks = m64();
+    a.statvfs.f_bfree = m64();
+    a.statvfs.f_bavail = m64();
+    a.statvfs.f_files = m64();
+    a.statvfs.f_ffree = m64();
+    a.statvfs.f_bsize = 0x4141_4141;
+    a.statvfs.f_namemax = 0x4242_4242;
+    a.statvfs.f_frsize = 0x4343_4343;
+    a.u64val = m64();
+    a.u32val = 0x5252_5252;
+    a.ioctl_result = 0x2323_2323;
+    a
+}
+
+fn expect_attr(st: &stat64, flags: u32, prefix: &str) -> Vec<(String, u64)> {
+    let p = |n: &str| format!("{}{}", prefix, n);
+    vec![
+        (p("ino"), st.st_ino),
+        (p("size"), st.st_size as u64),
+        (p("blocks"), st.st_blocks as u64),
+        (p("atime"), st.st_atime as u64),
+        (p("mtime"), st.st_mtime as u64),
+        (p("ctime"), st.st_ctime as u64),
+        (p("atimensec"), st.st_atime_nsec as u32 as u64),
+        (p("mtimensec"), st.st_mtime_nsec as u32 as u64),
+        (p("ctimensec"), st.st_ctime_nsec as u32 as u64),
+        (p("mode"), st.st_mode as u64),
+        (p("nlink"), st.st_nlink as u32 as u64),
+        (p("uid"), st.st_uid as u64),
+        (p("gid"), st.st_gid as u64),
+        (p("rdev"), st.st_rdev as u32 as u64),
+        (p("blksize"), st.st_blksize as u32 as u64),
+        (p("flags"), flags as u64),
+    ]
+}
+
+fn expect_entry(e: &Entry) -> Vec<(String, u64)> {
+    let mut v = vec![
+        ("nodeid".to_string(), e.inode),
+        ("generation".to_string(), e.generation),
+        ("entry_valid".to_string(), e.entry_timeout.as_secs()),
+        ("attr_valid".to_string(), e.attr_timeout.as_secs()),
+        ("entry_valid_nsec".to_string(), e.entry_timeout.subsec_nanos() as u64),
+        ("attr_valid_nsec".to_string(), e.attr_timeout.subsec_nanos() as u64),
+    ];
+    v.extend(expect_attr(&e.attr, e.attr_flags, "attr."));
+    v
+}
+
+/// (reply structure, expected field values, expected trailing bytes) of a successful reply.
+fn expected_ok(op: u64, a: &Answer, c: &Case) -> (Option<&'static k::Lay>, Vec<(String, u64)>, Vec<u8>) {
+    let open = |a: &Answer, pt: bool| {
+        vec![
+            ("fh".to_string(), a.handle.unwrap_or(0)),
+            ("open_flags".to_string(), a.opts as u64),
+            ("padding".to_string(), if pt { a.passthrough.unwrap_or(0) as u64 } else { 0 }),
+        ]
+    };
+    match op {
+        k::FUSE_LOOKUP | k::FUSE_SYMLINK | k::FUSE_MKNOD | k::FUSE_MKDIR | k::FUSE_LINK => (Some(&k::FUSE_ENTRY_OUT), expect_entry(&a.entry), vec![]),
+        k::FUSE_CREATE => {
+            // fuse_entry_out followed by fuse_open_out
+            let mut tail = vec![0u8; k::FUSE_OPEN_OUT.size];
+            for (n, v) in open(a, true) {
+                wire::put(&mut tail, &k::FUSE_OPEN_OUT, &n, v);
+            }
+            (Some(&k::FUSE_ENTRY_OUT), expect_entry(&a.entry), tail)
+        }
+        k::FUSE_GETATTR | k::FUSE_SETATTR => {
+            let mut v = vec![
+                ("attr_valid".to_string(), a.timeout.as_secs()),
+                ("attr_valid_nsec".to_string(), a.timeout.subsec_nanos() as u64),
+                ("dummy".to_string(), 0),
+            ];
+            v.extend(expect_attr(&a.attr, 0, "attr."));
+            (Some(&k::FUSE_ATTR_OUT), v, vec![])
+        }
+        k::FUSE_OPEN => (Some(&k::FUSE_OPEN_OUT), open(a, true), vec![]),
+        k::FUSE_OPENDIR => (Some(&k::FUSE_OPEN_OUT), open(a, false), vec![]),
+        k::FUSE_READ => (None, vec![], a.data[..a.data.len().min(c.v("size") as usize)].to_vec()),
+        k::FUSE_READLINK => (None, vec![], a.data.clone()),
+        k::FUSE_WRITE => (Some(&k::FUSE_WRITE_OUT), vec![("size".to_string(), a.count as u32 as u64), ("padding".to_string(), 0)], vec![]),
+        k::FUSE_STATFS => {
+            let s = &a.statvfs;
+            let mut v = vec![
+                ("st.blocks".to_string(), s.f_blocks),
+                ("st.bfree".to_string(), s.f_bfree),
+                ("st.bavail".to_string(), s.f_bavail),
+                ("st.files".to_string(), s.f_files),
+                ("st.ffree".to_string(), s.f_ffree),
+                ("st.bsize".to_string(), s.f_bsize as u32 as u64),
+                ("st.namelen".to_string(), s.f_namemax as u32 as u64),
+                ("st.frsize".to_string(), s.f_frsize as u32 as u64),
+                ("st.padding".to_string(), 0),
+            ];
+            v.push(("st.spare".to_string(), 0));
+            (Some(&k::FUSE_STATFS_OUT), v, vec![])
+        }
+        k::FUSE_GETXATTR | k::FUSE_LISTXATTR => match a.xattr_count {
+            Some(n) => (Some(&k::FUSE_GETXATTR_OUT), vec![("size".to_string(), n as u64), ("padding".to_string(), 0)], vec![]),
+            None => (None, vec![], a.data.clone()),
+        },
+        k::FUSE_GETLK => (
+            Some(&k::FUSE_LK_OUT),
+            vec![
+                ("lk.start".to_string(), a.lock.0),
+                ("lk.end".to_string(), a.lock.1),
+                ("lk.type".to_string(), a.lock.2 as u64),
+                ("lk.pid".to_string(), a.lock.3 as u64),
+            ],
+            vec![],
+        ),
+        k::FUSE_BMAP => (Some(&k::FUSE_BMAP_OUT), vec![("block".to_string(), a.u64val)], vec![]),
+        k::FUSE_LSEEK => (Some(&k::FUSE_LSEEK_OUT), vec![("offset".to_string(), a.u64val)], vec![]),
+        k::FUSE_POLL => (Some(&k::FUSE_POLL_OUT), vec![("revents".to_string(), a.u32val as u64), ("padding".to_string(), 0)], vec![]),
+        k::FUSE_IOCTL => (
+            Some(&k::FUSE_IOCTL_OUT),
+            vec![
+                ("result".to_string(), a.ioctl_result as u32 as u64),
+                ("flags".to_string(), 0),
+                ("in_iovs".to_string(), 0),
+                ("out_iovs".to_string(), 0),
+            ],
+            a.data.clone(),
+        ),
+        _ => (None, vec![], vec![]),
+    }
+}
+
+fn res_dims(op: u64) -> Vec<RDim> {
+    match op {
+        k::FUSE_LOOKUP | k::FUSE_SYMLINK | k::FUSE_MKNOD | k::FUSE_MKDIR | k::FUSE_LINK => stat_dims_entry(),
+        k::FUSE_CREATE => {
+            let mut v = stat_dims_entry();
+            v.extend(open_dims());
+            v
+        }
+        k::FUSE_GETATTR | k::FUSE_SETATTR => stat_dims_attr(),
+        k::FUSE_OPEN | k::FUSE_OPENDIR => open_dims(),
+        k::FUSE_WRITE => vec![rdim!("count", vec![0, 1, (1 << 32) - 1, 1 << 32, u64::MAX], |a, v| a.count = v as usize)],
+        k::FUSE_STATFS => statvfs_dims(),
+        k::FUSE_READ | k::FUSE_READLINK => vec![rdim!("data.len", vec![0, 1, 63, 64, 65, 4096], |a, v| a.data = payload_of(v as usize))],
+        k::FUSE_GETXATTR | k::FUSE_LISTXATTR => vec![
+            rdim!("data.len", vec![0, 1, 63, 64, 65, 4096], |a, v| a.data = payload_of(v as usize)),
+            rdim!("count", vec![0, 1, 1 << 31, u32::MAX as u64], |a, v| a.xattr_count = Some(v as u32)),
+        ],
+        k::FUSE_GETLK => vec![
+            rdim!("lock.start", dom_res64(), |a, v| a.lock.0 = v),
+            rdim!("lock.end", dom_res64(), |a, v| a.lock.1 = v),
+            rdim!("lock.type", dom_res32(), |a, v| a.lock.2 = v as u32),
+            rdim!("lock.pid", dom_res32(), |a, v| a.lock.3 = v as u32),
+        ],
+        k::FUSE_BMAP | k::FUSE_LSEEK => vec![rdim!("u64", dom_res64(), |a, v| a.u64val = v)],
+        k::FUSE_POLL => vec![rdim!("u32", dom_res32(), |a, v| a.u32val = v as u32)],
+        k::FUSE_IOCTL => vec![
+            rdim!("result", dom_res32(), |a, v| a.ioctl_result = v as u32 as i32),
+            rdim!("data.len", vec![0, 1, 64, 4096], |a, v| a.data = payload_of(v as usize)),
+        ],
+        _ => vec![],
+    }
+}
+
+fn c03_transports() -> Vec<Tr> {
+    vec![
+        Tr::Chan,
+        Tr::Sep(16 + 8192),
+        virt_simple(16 + 8192, true),
+        Tr::Virt { cuts: vec![40], wr: vec![16, 8192], gap: 8, wr_in_b: true, cache: true },
+        Tr::Virt { cuts: vec![], wr: vec![15, 1, 7, 8185], gap: 0, wr_in_b: false, cache: true },
+    ]
+}
+
+fn c03_req(op: u64) -> Case {
+    let mut c = wf_case(op);
+    if matches!(op, k::FUSE_READ) {
+        c.f.insert("size", 4096);
+    }
+    if op == k::FUSE_IOCTL {
+        c.f.insert("out_size", 4096);
+    }
+    c
+}
+
+/// Execute `op` answered by `ans`; compare the reply with the kernel-side decoding of `ans`.
+fn c03_check_ok(rig: &mut Rig, rep: &mut Report, op: u64, ans: &Answer, tr: &Tr, devs: &[(&str, u64)]) -> Option<Vec<u8>> {
+    rep.eval();
+    rep.transitions += 1;
+    let c = c03_req(op);
+    let bytes = c.req().bytes();
+    let (ex, _log) = rig.run(&bytes, tr, ans.clone());
+    let (recs, mut problems) = client_view(tr, &ex);
+    let opn = ops::op_name(op);
+    let case_json = |extra: Value| {
+        json!({"engine": "c03", "op": opn, "deviations": devs, "transport": tr.to_replay(), "request_hex": hex(&bytes), "detail": extra,
+               "records": recs.iter().map(|r| hex(&r[..r.len().min(400)])).collect::<Vec<_>>(), "ret": format!("{:?}", ex.ret)})
+    };
+    if let Some(p) = &ex.panic {
+        problems.push(("panic".into(), p.clone()));
+    }
+    let mut entry_bytes = None;
+    if recs.len() != 1 {
+        problems.push(("reply-count".into(), format!("{} replies", recs.len())));
+    } else {
+        match wire::parse_reply(&recs[0]) {
+            Err(e) => problems.push(("short-reply".into(), e)),
+            Ok(r) => {
+                if r.error != 0 {
+                    problems.push(("unexpected-error".into(), format!("filesystem returned Ok, reply carries error {}", r.error)));
+                } else if r.len as usize != recs[0].len() || r.unique != c.unique {
+                    problems.push(("framing".into(), format!("len {} for {} bytes, unique {:#x}", r.len, recs[0].len(), r.unique)));
+                } else {
+                    let (lay, fields, tail) = expected_ok(op, ans, &c);
+                    let ssz = lay.map(|l| l.size).unwrap_or(0);
+                    if r.body.len() != ssz + tail.len() {
+                        problems.push(("reply-size".into(), format!("body {} bytes, kernel expects {} + {}", r.body.len(), ssz, tail.len())));
+                    } else {
+                        if let Some(lay) = lay {
+                            for (n, v) in &fields {
+                                let f = lay.f(n);
+                                let got = if f.size <= 8 { wire::get_at(&r.body, f.off, f.size) } else { r.body[f.off..f.off + f.size].iter().map(|b| *b as u64).sum() };
+                                let mask = if f.size >= 8 { u64::MAX } else { (1u64 << (8 * f.size)) - 1 };
+                                if got != (*v & mask) {
+                                    problems.push((format!("field:{}", n), format!("{}.{} = {:#x}, filesystem returned {:#x}", lay.name, n, got, v)));
+                                }
+                            }
+                            if lay.name == "fuse_entry_out" {
+                                entry_bytes = Some(r.body[..ssz].to_vec());
+                            }
+                        }
+                        if r.body[ssz..] != tail[..] {
+                            problems.push(("data".into(), "trailing bytes differ from what the filesystem produced".to_string()));
+                        }
+                    }
+                }
+            }
+        }
+    }
+    rep.outcome(&format!("{}:ok:{}", opn, if problems.is_empty() { "encoded-as-expected" } else { "MISMATCH" }));
+    rep.state_of(&(op, recs.first()));
+    rep.sample(|| json!({"op": opn, "deviations": devs, "transport": tr.label(), "reply_hex": recs.first().map(|r| hex(&r[..r.len().min(64)]))}));
+    for (class, msg) in problems {
+        rep.violation(&format!("C03/{}/{}", opn, class), &msg, || case_json(json!(msg)));
+    }
+    entry_bytes
+}
+
+fn all_kinds() -> Vec<std::io::ErrorKind> {
+    use std::io::ErrorKind::*;
+    vec![
+        NotFound, PermissionDenied, ConnectionRefused, ConnectionReset, ConnectionAborted, NotConnected, AddrInUse,
+        AddrNotAvailable, BrokenPipe, AlreadyExists, WouldBlock, InvalidInput, InvalidData, TimedOut, WriteZero,
+        Interrupted, Unsupported, UnexpectedEof, OutOfMemory, Other,
+    ]
+}
+
+fn c03_check_err(rig: &mut Rig, rep: &mut Report, op: u64, fail: &Fail, tr: &Tr) {
+    rep.eval();
+    rep.transitions += 1;
+    let c = c03_req(op);
+    let bytes = c.req().bytes();
+    let mut ans = base_answer();
+    ans.fail = Some(fail.clone());
+    let (ex, _log) = rig.run(&bytes, tr, ans);
+    let (recs, mut problems) = client_view(tr, &ex);
+    let opn = ops::op_name(op);
+    if let Some(p) = &ex.panic {
+        problems.push(("panic".into(), p.clone()));
+    }
+    if recs.len() != 1 {
+        problems.push(("reply-count".into(), format!("{} replies to a failed {}", recs.len(), opn)));
+    } else if let Ok(r) = wire::parse_reply(&recs[0]) {
+        if r.len != 16 || recs[0].len() != 16 || r.unique != c.unique {
+            problems.push(("framing".into(), format!("error reply len {} / {} bytes", r.len, recs[0].len())));
+        }
+        match fail {
+            Fail::Errno(e) => {
+                if r.error != -*e {
+                    problems.push(("errno".into(), format!("filesystem failed with errno {}, reply error {}", e, r.error)));
+                }
+            }
+            Fail::Kind(kind) => {
+                if !(-4095..=-1).contains(&r.error) {
+                    problems.push(("errno-range".into(), format!("kind {:?} encoded as {}", kind, r.error)));
+                } else {
+                    use std::io::ErrorKind::*;
+                    if matches!(kind, NotFound | PermissionDenied | AlreadyExists | WouldBlock | Interrupted)
+                        && std::io::Error::from_raw_os_error(-r.error).kind() != *kind
+                    {
+                        problems.push(("errno-kind".into(), format!("kind {:?} encoded as errno {} which means {:?}", kind, -r.error, std::io::Error::from_raw_os_error(-r.error).kind())));
+                    }
+                }
+            }
+        }
+    } else {
+        problems.push(("short-reply".into(), "error reply shorter than a header".into()));
+    }
+    rep.outcome(&format!("{}:err:{}", opn, if problems.is_empty() { "encoded-as-expected" } else { "MISMATCH" }));
+    rep.state_of(&(op, format!("{:?}", fail), recs.first()));
+    for (class, msg) in problems {
+        rep.violation(&format!("C03/{}/error-{}", opn, class), &msg, || {
+            json!({"engine": "c03-err", "op": opn, "fail": format!("{:?}", fail), "transport": tr.to_replay(), "request_hex": hex(&bytes)})
+        });
+    }
+}
+
+/// Directory replies.
+fn c03_dir(rig: &mut Rig, rep: &mut Report, idx: &mut u64, thorough: bool) {
+    let e = base_answer().entry;
+    let mk = |names: &[usize]| -> Vec<DirAns> {
+        names
+            .iter()
+            .enumerate()
+            .map(|(i, l)| {
+                let mut en = e;
+                en.inode = 0x1000 + i as u64;
+                en.attr.st_ino = 0x2000 + i as u64;
+                DirAns { ino: 0x3000 + i as u64, off: 0x4000 + i as u64, typ: (i as u32 % 13) + 1, name: name_of(*l, i as u8), entry: en }
+            })
+            .collect()
+    };
+    let lists: Vec<Vec<usize>> = vec![
+        (1..=24).collect(),
+        vec![8, 8, 8, 8, 8, 8],
+        vec![255, 1, 255],
+        vec![1],
+        vec![],
+        vec![7, 9, 16, 17, 23, 24, 25, 1, 2, 3],
+    ];
+    let mut sizes: Vec<u32> = (0..=400).collect();
+    sizes.extend([1024, 4095, 4096]);
+    for plus in [false, true] {
+        let op = if plus { k::FUSE_READDIRPLUS } else { k::FUSE_READDIR };
+        for (li, names) in lists.iter().enumerate() {
+            if !thorough && li >= 3 && li != 4 {
+                continue;
+            }
+            let dirents = mk(names);
+            for &size in &sizes {
+                if !thorough && plus && size % 3 != 0 && size > 200 {
+                    continue;
+                }
+                for slack in [16usize, 15, 8, 0] {
+                    let cap = size as usize + slack;
+                    let trs = [
+                        Tr::Sep(cap),
+                        Tr::Virt { cuts: vec![40], wr: if cap >= 16 { vec![16, cap - 16] } else { vec![cap] }, gap: 8, wr_in_b: true, cache: false },
+                    ];
+                    for tr in trs.iter() {
+                        for propagate in [true, false] {
+                            if slack == 16 && !propagate {
+                                continue;
+                            }
+                            if rep.mine(*idx) {
+                                c03_dir_one(rig, rep, op, plus, &dirents, size, tr, slack, propagate);
+                            }
+                            *idx += 1;
+                        }
+                    }
+                }
+            }
+        }
+    }
+    // the production channel with its fixed buffer
+    for plus in [false, true] {
+        let op = if plus { k::FUSE_READDIRPLUS } else { k::FUSE_READDIR };
+        let dirents = mk(&(1..=24).collect::<Vec<_>>());
+        for size in [0u32, 24, 31, 32, 100, 4096, 65536] {
+            if rep.mine(*idx) {
+                c03_dir_one(rig, rep, op, plus, &dirents, size, &Tr::Chan, 16, true);
+            }
+            *idx += 1;
+        }
+    }
+}
+
+#[allow(clippy::too_many_arguments)]
+fn c03_dir_one(rig: &mut Rig, rep: &mut Report, op: u64, plus: bool, dirents: &[DirAns], size: u32, tr: &Tr, slack: usize, propagate: bool) {
+    rep.eval();
+    rep.transitions += 1;
+    let mut c = wf_case(op);
+    c.f.insert("size", size as u64);
+    let bytes = c.req().bytes();
+    let mut ans = Answer::default();
+    ans.dirents = dirents.to_vec();
+    ans.dir_propagate_err = propagate;
+    let (ex, _log) = rig.run(&bytes, tr, ans);
+    let results = rig.fs.dir_results();
+    let (recs, mut problems) = client_view(tr, &ex);
+    let opn = ops::op_name(op);
+    if let Some(p) = &ex.panic {
+        problems.push(("panic".into(), p.clone()));
+    }
+    let eo = if plus { k::FUSE_ENTRY_OUT.size } else { 0 };
+    let reclen = |d: &DirAns| (eo + 24 + d.name.len() + 7) & !7;
+    // what fits by the kernel's rule
+    let mut used = 0usize;
+    let mut fit = 0usize;
+    for d in dirents {
+        if used + reclen(d) <= size as usize {
+            used += reclen(d);
+            fit += 1;
+        } else {
+            break;
+        }
+    }
+    let mut delivered = 0usize;
+    if recs.len() > 1 {
+        problems.push(("reply-count".into(), format!("{} replies", recs.len())));
+    } else if recs.is_empty() {
+        if slack >= 16 {
+            problems.push(("no-reply".into(), format!("no reply although the reply area holds header + size ({}+{})", 16, size)));
+        }
+    } else {
+        match wire::parse_reply(&recs[0]) {
+            Err(e) => problems.push(("short-reply".into(), e)),
+            Ok(r) => {
+                if r.len as usize != recs[0].len() {
+                    problems.push(("framing".into(), format!("len {} for {} bytes", r.len, recs[0].len())));
+                }
+                if r.error != 0 {
+                    if slack >= 16 {
+                        problems.push(("unexpected-error".into(), format!("error {} although the filesystem succeeded and the area holds header + size", r.error)));
+                    }
+                } else {
+                    if r.body.len() > size as usize {
+                        problems.push(("exceeds-size".into(), format!("{} bytes of entries for requested size {}", r.body.len(), size)));
+                    }
+                    match wire::parse_dirents(&r.body, plus) {
+                        Err(e) => problems.push(("partial-entry".into(), e)),
+                        Ok(got) => {
+                            delivered = got.len();
+                            for (i, g) in got.iter().enumerate() {
+                                let d = match dirents.get(i) {
+                                    Some(d) => d,
+                                    None => {
+                                        problems.push(("extra-entry".into(), format!("entry {} was never produced", i)));
+                                        break;
+                                    }
+                                };
+                                if g.ino != d.ino || g.off != d.off || g.typ != d.typ || g.name != d.name {
+                                    problems.push(("entry-mismatch".into(), format!("entry {}: got ino={:#x} off={:#x} type={} name={:?}", i, g.ino, g.off, g.typ, String::from_utf8_lossy(&g.name))));
+                                    break;
+                                }
+                                if let Some(eb) = &g.entry {
+                                    for (n, v) in expect_entry(&d.entry) {
+                                        let f = k::FUSE_ENTRY_OUT.f(&n);
+                                        let mask = if f.size >= 8 { u64::MAX } else { (1u64 << (8 * f.size)) - 1 };
+                                        if wire::get_at(eb, f.off, f.size) != (v & mask) {
+                                            problems.push((format!("plus-field:{}", n), format!("entry {}: fuse_entry_out.{} differs", i, n)));
+                                        }
+                                    }
+                                }
+                            }
+                            if slack >= 16 && delivered != fit.min(dirents.len()) {
+                                problems.push(("entry-count".into(), format!("{} entries delivered, {} fit into size {}", delivered, fit, size)));
+                            }
+                        }
+                    }
+                }
+            }
+        }
+    }
+    // the backend must be told "full" exactly when the next entry did not fit
+    if slack >= 16 {
+        for (i, res) in &results {
+            let should_fit = *i < fit;
+            match res {
+                Ok(n) if *n > 0 && !should_fit => problems.push(("accepted-overflow".into(), format!("entry {} accepted although it does not fit", i))),
+                Ok(0) if should_fit => problems.push(("refused-fitting".into(), format!("entry {} refused although it fits", i))),
+                Err(e) => problems.push(("add-entry-error".into(), format!("add_entry({}) failed with {}", i, e))),
+                _ => {}
+            }
+        }
+    }
+    rep.outcome(&format!("{}:dir:slack{}:{}", opn, slack.min(16), if problems.is_empty() { "ok" } else { "MISMATCH" }));
+    rep.state_of(&(op, size, slack, dirents.len(), recs.first()));
+    rep.sample(|| json!({"op": opn, "size": size, "slack": slack, "entries_scripted": dirents.len(), "entries_delivered": delivered, "transport": tr.label()}));
+    for (class, msg) in problems {
+        let cls = if slack >= 16 { class.clone() } else { format!("{}@area-smaller-than-header+size", class) };
+        rep.violation(&format!("C03/{}/dir-{}", opn, cls), &msg, || {
+            json!({"engine": "c03-dir", "op": opn, "size": size, "slack": slack, "propagate": propagate, "transport": tr.to_replay(),
+                   "names": dirents.iter().map(|d| d.name.len()).collect::<Vec<_>>(), "add_entry_results": format!("{:?}", results),
+                   "records": recs.iter().map(|r| hex(&r[..r.len().min(600)])).collect::<Vec<_>>(), "ret": format!("{:?}", ex.ret)})
+        });
+    }
+}
+
+fn c03_notify(rig: &mut Rig, rep: &mut Report, idx: &mut u64) {
+    use fuse_backend_rs::transport::FuseDevWriter;
+    let mut lens: Vec<usize> = (1..=16).collect();
+    lens.extend([255, 1024]);
+    let mut one = |rig: &mut Rig, rep: &mut Report, what: &str, f: &dyn Fn(&Server<Arc<ScriptFs>>, FuseDevWriter<'_, ()>) -> bool, code: u64, lay: Option<&'static k::Lay>, fields: Vec<(&str, u64)>, tail: Vec<u8>| {
+        rep.eval();
+        rep.transitions += 1;
+        rig.dev.drain();
+        let mut buf = vec![0u8; 8192];
+        let fd = rig.dev.srv;
+        let ok = {
+            let w = FuseDevWriter::<()>::new(fd, &mut buf).unwrap();
+            f(&rig.server, w)
+        };
+        let recs = rig.dev.drain();
+        let mut problems: Vec<(String, String)> = vec![];
+        if !ok {
+            problems.push(("call-failed".into(), "notification call returned an error".into()));
+        }
+        if recs.len() != 1 {
+            problems.push(("write-calls".into(), format!("{} write calls", recs.len())));
+        } else if let Ok(r) = wire::parse_reply(&recs[0]) {
+            let ssz = lay.map(|l| l.size).unwrap_or(0);
+            if r.len as usize != recs[0].len() {
+                problems.push(("length".into(), format!("header len {} for {} bytes written", r.len, recs[0].len())));
+            }
+            if r.unique != 0 || r.error as i64 != code as i64 {
+                problems.push(("header".into(), format!("unique {} code {} (expected 0 / {})", r.unique, r.error, code)));
+            }
+            if r.body.len() != ssz + tail.len() {
+                problems.push(("size".into(), format!("body {} bytes, kernel expects {}", r.body.len(), ssz + tail.len())));
+            } else {
+                if let Some(lay) = lay {
+                    for (n, v) in &fields {
+                        if wire::get(&r.body, lay, n) != *v {
+                            problems.push((format!("field:{}", n), format!("{}.{} = {:#x}, expected {:#x}", lay.name, n, wire::get(&r.body, lay, n), v)));
+                        }
+                    }
+                }
+                if r.body[ssz..] != tail[..] {
+                    problems.push(("name".into(), "name bytes differ".into()));
+                }
+            }
+        } else {
+            problems.push(("short".into(), "notification shorter than a header".into()));
+        }
+        rep.outcome(&format!("notify:{}:{}", what, if problems.is_empty() { "ok" } else { "MISMATCH" }));
+        rep.state_of(&(what, recs.first()));
+        for (class, msg) in problems {
+            rep.violation(&format!("C03/notify-{}/{}", what, class), &msg, || json!({"engine": "c03-notify", "what": what, "records": recs.iter().map(|r| hex(r)).collect::<Vec<_>>()}));
+        }
+    };
+    for l in lens {
+        for parent in [1u64, 0xA1A2_A3A4_A5A6_A7A8, u64::MAX] {
+            if rep.mine(*idx) {
+                let name = std::ffi::CString::new(name_of(l, 5)).unwrap();
+                let n2 = name.clone();
+                one(
+                    rig,
+                    rep,
+                    "inval_entry",
+                    &move |s, w| s.notify_inval_entry(w, parent, &n2).is_ok(),
+                    k::FUSE_NOTIFY_INVAL_ENTRY,
+                    Some(&k::FUSE_NOTIFY_INVAL_ENTRY_OUT),
+                    vec![("parent", parent), ("namelen", l as u64), ("flags", 0)],
+                    name.as_bytes_with_nul().to_vec(),
+                );
+            }
+            *idx += 1;
+        }
+    }
+    for ino in [1u64, 0xB1B2_B3B4_B5B6_B7B8] {
+        for off in [0u64, 1, 1 << 40, i64::MAX as u64, u64::MAX] {
+            for len in [0u64, 1, 4096, i64::MAX as u64, u64::MAX] {
+                if rep.mine(*idx) {
+                    one(
+                        rig,
+                        rep,
+                        "inval_inode",
+                        &move |s, w| s.notify_inval_inode(w, ino, off, len).is_ok(),
+                        k::FUSE_NOTIFY_INVAL_INODE,
+                        Some(&k::FUSE_NOTIFY_INVAL_INODE_OUT),
+                        vec![("ino", ino), ("off", off), ("len", len)],
+                        vec![],
+                    );
+                }
+                *idx += 1;
+            }
+        }
+    }
+    if rep.mine(*idx) {
+        one(rig, rep, "resend", &|s, w| s.notify_resend(w).is_ok(), k::FUSE_NOTIFY_RESEND, None, vec![], vec![]);
+    }
+    *idx += 1;
+}
+
+pub fn c03(args: &Args) -> Report {
+    let mut rep = args.report();
+    let mut rig = Rig::new();
+    let thorough = args.thorough();
+    let mut idx = 0u64;
+    let trs = c03_transports();
+    let reply_ops: Vec<u64> = ops::ALL_OPS.iter().copied().filter(|o| ops::wants_reply(*o) && *o != k::FUSE_INIT && *o != k::FUSE_COPY_FILE_RANGE && *o != k::FUSE_READDIR && *o != k::FUSE_READDIRPLUS && *o != k::FUSE_DESTROY).collect();
+    // successful results: DEV(2) over the result fields
+    let all_trs = trs.clone();
+    for &op in &reply_ops {
+        let dims = res_dims(op);
+        let base = base_answer();
+        // the DAX window requests only exist on virtio-fs with a cache window attached
+        let trs: Vec<Tr> = if matches!(op, k::FUSE_SETUPMAPPING | k::FUSE_REMOVEMAPPING) { all_trs.iter().filter(|t| t.has_cache()).cloned().collect() } else { all_trs.clone() };
+        for tr in &trs {
+            if rep.mine(idx) {
+                c03_check_ok(&mut rig, &mut rep, op, &base, tr, &[]);
+            }
+            idx += 1;
+        }
+        for d in &dims {
+            for &v in &d.alts {
+                let mut a = base.clone();
+                (d.set)(&mut a, v);
+                for tr in &trs {
+                    if rep.mine(idx) {
+                        c03_check_ok(&mut rig, &mut rep, op, &a, tr, &[(d.name, v)]);
+                    }
+                    idx += 1;
+                }
+            }
+        }
+        for i in 0..dims.len() {
+            for j in (i + 1)..dims.len() {
+                for &vi in &dims[i].alts {
+                    for &vj in &dims[j].alts {
+                        let mut a = base.clone();
+                        (dims[i].set)(&mut a, vi);
+                        (dims[j].set)(&mut a, vj);
+                        let ntr = if thorough { trs.len() } else { 2 };
+                        for tr in trs.iter().take(ntr) {
+                            if rep.mine(idx) {
+                                c03_check_ok(&mut rig, &mut rep, op, &a, tr, &[(dims[i].name, vi), (dims[j].name, vj)]);
+                            }
+                            idx += 1;
+                        }
+                    }
+                }
+            }
+        }
+    }
+    // differential clause: one Entry, every entry-carrying reply path, identical bytes
+    let entry_ops = [k::FUSE_LOOKUP, k::FUSE_MKNOD, k::FUSE_MKDIR, k::FUSE_SYMLINK, k::FUSE_LINK, k::FUSE_CREATE];
+    let dims = stat_dims_entry();
+    let mut variants: Vec<(Vec<(&str, u64)>, Answer)> = vec![(vec![], base_answer())];
+    for d in &dims {
+        for &v in &d.alts {
+            let mut a = base_answer();
+            (d.set)(&mut a, v);
+            variants.push((vec![(d.name, v)], a));
+        }
+    }
+    for (devs, a) in &variants {
+        if rep.mine(idx) {
+            let mut enc: Vec<(String, Vec<u8>)> = Vec::new();
+            for &op in &entry_ops {
+                if let Some(b) = c03_check_ok(&mut rig, &mut rep, op, a, &Tr::Sep(8192), devs) {
+                    enc.push((ops::op_name(op), b));
+                }
+            }
+            // READDIRPLUS carries the same entry
+            let mut c = wf_case(k::FUSE_READDIRPLUS);
+            c.f.insert("size", 4096);
+            let mut ans = Answer::default();
+            ans.dirents = vec![DirAns { ino: 5, off: 6, typ: 4, name: b"x".to_vec(), entry: a.entry }];
+            let (ex, _) = rig.run(&c.req().bytes(), &Tr::Sep(8192), ans);
+            rep.eval();
+            rep.transitions += 1;
+            if let Some(r) = ex.records.first().and_then(|r| wire::parse_reply(r).ok()) {
+                if let Ok(ds) = wire::parse_dirents(&r.body, true) {
+                    if let Some(d) = ds.first() {
+                        enc.push(("FUSE_READDIRPLUS".into(), d.entry.clone().unwrap()));
+                    }
+                }
+            }
+            for (name, b) in &enc[1..] {
+                if *b != enc[0].1 {
+                    rep.violation(&format!("C03/{}/entry-encoding-differs-from-FUSE_LOOKUP", name), &format!("the same Entry is encoded differently by {} and {}", enc[0].0, name), || {
+                        json!({"engine": "c03-diff", "deviations": devs, "lookup": hex(&enc[0].1), "other": hex(b), "op": name})
+                    });
+                }
+            }
+            rep.outcome(&format!("entry-differential:{}", enc.len()));
+        }
+        idx += 1;
+    }
+    // errors: every errno and every non-OS kind on every replying opcode
+    let mut fails: Vec<Fail> = (1..=133).map(Fail::Errno).collect();
+    fails.push(Fail::Errno(4095));
+    fails.extend(all_kinds().into_iter().map(Fail::Kind));
+    let mut err_ops = reply_ops.clone();
+    err_ops.extend([k::FUSE_READDIR, k::FUSE_READDIRPLUS, k::FUSE_NOTIFY_REPLY]);
+    for &op in &err_ops {
+        let trs: Vec<Tr> = if matches!(op, k::FUSE_SETUPMAPPING | k::FUSE_REMOVEMAPPING) { trs.iter().filter(|t| t.has_cache()).cloned().collect() } else { trs.clone() };
+        for f in &fails {
+            let ntr = if thorough { trs.len() } else { 2 };
+            for tr in trs.iter().take(ntr) {
+                if rep.mine(idx) {
+                    c03_check_err(&mut rig, &mut rep, op, f, tr);
+                }
+                idx += 1;
+            }
+        }
+    }
+    c03_dir(&mut rig, &mut rep, &mut idx, thorough);
+    c03_notify(&mut rig, &mut rep, &mut idx);
+    rep.set("total_cases_all_shards", json!(idx));
+    rep.set("deviation_bound_completed", json!(2));
+    rep
+}
